@@ -27,6 +27,14 @@ P("C27", [("K5", None)],
   "Assumed: unwinding runs the same drop glue as early return; Kani's model of Vec/Box raw-parts functions; bound on length.",
   "contract-based verification with Kani harness contracts, bounded unwinding (vector length), unwinding assertions on")
 
+P("C15", [("V7", None)],
+  "proof",
+  "Verus, modular and unbounded, on the verbatim text of InferenceTable::relate/snapshot/rollback_to/commit: relate returning Err implies the table's "
+  "observable state (ena contents, variable list, max universe) equals the state at entry, whatever the unifier did in between (its body is havoc). "
+  "The second sentence of C15 (argument order) is not decided by this unit.",
+  "Assumed: ena's snapshot/rollback/commit contract; the unifier keeps ena's snapshot stack balanced; Vec::clone spec of vstd.",
+  "contract-based deductive verification: Verus on mechanically extracted function text, callee contracts + havoc")
+
 # ---- not (yet) claimed
 NOT_APPLICABLE['C02'] = "completeness of proof search within size limits is a whole-search statement; the mechanisms named in the anchors (on_no_strands_left, clear_strands_after_cycle, solve_new_subgoal, Fulfill::fulfill) log, use FxHashMap tables and custom Index impls (DESIGN P5/P6/P10) and none has a per-function contract implying 'never Ambiguous'"
 NOT_APPLICABLE['C04'] = 'relational property between two whole solvers; no function has a contract that mentions both'
